@@ -80,17 +80,83 @@ def bodies(tier):
                 if not (atypes[0] == atypes[1] and atypes[2] == atypes[3] == atypes[4]):
                     continue
             rec([], vals0)
-    # thin very large families deterministically: keep every body with <= 2 ops, and those 3+-op bodies that use >= 2 distinct args
     res = []
     for (atypes, ops) in out:
-        argrefs = {rf[1] for (_, refs, _) in ops for rf in refs if rf[0] == "a"}
-        if len(ops) >= 3 and len(argrefs) < 3:
-            continue
-        if len(ops) >= 4 and len(argrefs) < 4:
+        # 3+-op bodies cannot match a kernel of the dialect for 4/5 block arguments unless they have the kernel's op kinds:
+        # keep all bodies with <= 2 ops, all 3-op bodies over 3 block arguments (quick) / everything (thorough)
+        if tier == "quick" and len(ops) >= 3 and len(atypes) > 3:
             continue
         res.append((atypes, ops))
+    res += family_mac_extsi() + family_qmac()
     _BODIES[tier] = res
     return res
+
+
+def _all_wirings(atypes, kinds, W=(8, 32)):
+    """every type-correct wiring of a fixed op-kind sequence (extsi always widens to 32), last result of out type, every op used"""
+    out = []
+
+    def rec(j, ops, vals):
+        if j == len(kinds):
+            used = {rf[1] for (_, refs, _) in ops for rf in refs if rf[0] == "r"}
+            if ops[-1][2] == atypes[-1] and all(i in used for i in range(len(ops) - 1)):
+                out.append((atypes, tuple(ops)))
+            return
+        k = kinds[j]
+        if k == "extsi":
+            for (r1, w1) in vals:
+                if w1 < 32:
+                    rec(j + 1, ops + [("extsi", (r1,), 32)], vals + [(("r", j), 32)])
+        else:
+            for (r1, w1) in vals:
+                for (r2, w2) in vals:
+                    if w1 == w2:
+                        rec(j + 1, ops + [(k, (r1, r2), w1)], vals + [(("r", j), w1)])
+
+    rec(0, [], [(("a", i), atypes[i]) for i in range(len(atypes))])
+    return out
+
+
+def family_mac_extsi():
+    """all orderings and wirings of the op kinds of the sign-extending mac {extsi, extsi, muli, addi} over (i8, i8, i32) and (i8, i32, i32)"""
+    out = []
+    for atypes in ((8, 8, 32), (8, 32, 32)):
+        for kinds in sorted(set(itertools.permutations(["extsi", "extsi", "muli", "addi"]))):
+            out += _all_wirings(atypes, kinds)
+    return out
+
+
+def family_qmac():
+    """the quantised mac body (6 ops) and every single-operand substitution / operand swap of it, over (i8, i8, i32, i32, i32)"""
+    atypes = (8, 8, 32, 32, 32)
+    base = [
+        ("extsi", (("a", 0),), 32),
+        ("subi", (("r", 0), ("a", 2)), 32),
+        ("extsi", (("a", 1),), 32),
+        ("subi", (("r", 2), ("a", 3)), 32),
+        ("muli", (("r", 1), ("r", 3)), 32),
+        ("addi", (("a", 4), ("r", 4)), 32),
+    ]
+    out = [(atypes, tuple(base))]
+    for j, (kind, refs, w) in enumerate(base):
+        avail = [(("a", i), atypes[i]) for i in range(5)] + [(("r", i), base[i][2]) for i in range(j)]
+        for slot in range(len(refs)):
+            for (rf, wv) in avail:
+                want_w = 8 if kind == "extsi" else 32
+                if wv != want_w or rf == refs[slot]:
+                    continue
+                new = list(base)
+                nr = list(refs)
+                nr[slot] = rf
+                new[j] = (kind, tuple(nr), w)
+                used = {r_[1] for (_, rs, _) in new for r_ in rs if r_[0] == "r"}
+                if all(i in used for i in range(5)):
+                    out.append((atypes, tuple(new)))
+        if len(refs) == 2:
+            new = list(base)
+            new[j] = (kind, (refs[1], refs[0]), w)
+            out.append((atypes, tuple(new)))
+    return out
 
 
 def space(tier):
